@@ -11,7 +11,9 @@
      listing  : Path.Decode(g, file) -> Start                    (FindSegments, recordingsOfPath)
      delete   : Path{Start: start.Local()}.Encode(g), os.Remove  start = time.Parse(RFC3339, query "start")
    The server's time zone is a function `zone : Unix seconds -> offset in force` (oracle: the zone database);
-   `loff` is the offset time.Date applies when Decode reads a name without %z / %s. *)
+   `loff` is the offset time.Date applies when Decode reads a name without %z / %s; the general form
+   takes C26's `lzone` (both functions of the zone), see listed_start_lz and Proofs/C31_DeleteSeg.v
+   for the zone-table instance (Model/C26_Zone.v). *)
 From Coq Require Import List ZArith Bool.
 Require Import MTX.Lib.Civil MTX.Model.C26_RecPath.
 Import ListNotations.
@@ -35,9 +37,11 @@ Definition delete_target_prefix (g : list Z) (req : instant) : list Z := encode_
 (* the file the recorder creates for a segment starting at Unix time (u, n) *)
 Definition recorded_name (zone : Z -> Z) (g : list Z) (u n : Z) : list Z := encode_go g [] (mkI u n (zone u)).
 
-(* the Start the listing reports for a file *)
-Definition listed_start (loff : Z) (g v : list Z) : option (Z * Z) :=
-  match decode loff g v with Some (_, u, n) => Some (u, n) | None => None end.
+(* the Start the listing reports for a file; L = the server's local zone as Decode sees it
+   (C26: lzone), a fixed offset loff being the constant pair *)
+Definition listed_start_lz (L : lzone) (g v : list Z) : option (Z * Z) :=
+  match decode_lz L g v with Some (_, u, n) => Some (u, n) | None => None end.
+Definition listed_start (loff : Z) (g v : list Z) : option (Z * Z) := listed_start_lz (fixed_lz loff) g v.
 
 Definition same_instant (a b : instant) : Prop := i_unix a = i_unix b /\ i_ns a = i_ns b.
 
